@@ -272,7 +272,7 @@ class Check:
         for v in self.violations:
             if v["class"] in known_classes:
                 seen_known.setdefault(v["class"], v)
-        rdir = os.path.join(VERIF, "replays", self.pid)
+        rdir = os.path.join(os.environ.get("VERIF_REPLAY_DIR", os.path.join(VERIF, "replays")), self.pid)
         lines, rc = [], 0
         for cls, v in seen_known.items():
             lines.append(f"KNOWN-FINDING: property={self.pid} {known_classes[cls].get('what', v['what'])}")
@@ -320,8 +320,9 @@ class Check:
         ev = {"property_id": self.pid, "tier": self.tier, "seed": self.seed, "level": self.level,
               "coverage": cov, "assumptions": self.assumptions,
               "wall_s": round(time.time() - self.t0, 2), "violations": len(new_v) + (1 if self.broken and not new_v else 0)}
-        os.makedirs(os.path.join(VERIF, "evidence"), exist_ok=True)
-        json.dump(ev, open(os.path.join(VERIF, "evidence", self.pid + ".json"), "w"), indent=1, sort_keys=True)
+        evdir = os.environ.get("VERIF_EVIDENCE_DIR", os.path.join(VERIF, "evidence"))
+        os.makedirs(evdir, exist_ok=True)
+        json.dump(ev, open(os.path.join(evdir, self.pid + ".json"), "w"), indent=1, sort_keys=True)
         for l in lines: print(l)
         for n, d in self.broken:
             print(f"BROKEN: {n}: {d[:1500]}", file=sys.stderr)
